@@ -152,13 +152,18 @@ inductive Val where
   | raw (b : Bytes)
   | str (b : Bytes)
   | list (vs : Vals)
-  | rec (vs : Vals)          -- one entry per field; `none` for an absent conditional field
+  | recd (vs : Vals)         -- one entry per field; `none` for an absent conditional field
   | alt (i : Nat) (v : Val)  -- i-th constructor of a union
   | none
 inductive Vals where
   | nil
   | cons (v : Val) (vs : Vals)
 end
+
+deriving instance DecidableEq for Val, Vals
+deriving instance DecidableEq for Desc, Flds, Alts
+deriving instance Repr for Val, Vals
+deriving instance Repr for Desc, Flds, Alts
 
 instance : Inhabited Val := ⟨.none⟩
 instance : Inhabited Desc := ⟨.nat⟩
@@ -205,7 +210,7 @@ def enc : Desc → Env → Val → Bytes
   | .str, _, .str b => encStr b
   | .vec t, env, .list vs => le32 vs.length ++ encVals (enc t env) vs
   | .tup _ t, env, .list vs => encVals (enc t env) vs
-  | .struct args fs, env, .rec vs => encFlds fs (evalArgs env args) vs
+  | .struct args fs, env, .recd vs => encFlds fs (evalArgs env args) vs
   | .boxed tag t, env, v => le32 tag ++ enc t env v
   | .union alts, env, .alt i v => le32 (tagAt alts i) ++ encAlt alts env i v
   | _, _, _ => []
@@ -242,7 +247,7 @@ def dec : Desc → Env → Bytes → Option (Val × Bytes)
     | some (vs, r1) => some (.list vs, r1)
     | none => none
   | .struct args fs, env, r => match decFlds fs (evalArgs env args) r with
-    | some (vs, r1) => some (.rec vs, r1)
+    | some (vs, r1) => some (.recd vs, r1)
     | none => none
   | .boxed tag t, env, r => match readNat r with
     | some (n, r1) => if n = tag then dec t env r1 else none
@@ -291,7 +296,7 @@ def wt : Desc → Env → Val → Bool
   | .str, _, .str b => b.length ≤ maxHugeStringLen
   | .vec t, env, .list vs => vs.length < 4294967296 && allVals (wt t env) vs
   | .tup n t, env, .list vs => vs.length == n.eval env && allVals (wt t env) vs
-  | .struct args fs, env, .rec vs => wtFlds fs (evalArgs env args) vs
+  | .struct args fs, env, .recd vs => wtFlds fs (evalArgs env args) vs
   | .boxed tag t, env, v => tag < 4294967296 && wt t env v
   | .union alts, env, .alt i v => wtAlt alts env i v
   | _, _, _ => false
